@@ -368,9 +368,9 @@ var (
 	msts    = []string{"cpu_0000", "cpu_0001", "cp_0000", "mem,x_0000", "m é_0000"}
 	tagKeys = []string{"host", "hos", "region", "a=b", "k,1", "sp ace", "ü"}
 	vals    = []string{"web", "db", "web-1", "web-2", "w", "d", "a", "ab", "abc", "b", "x,y", "k=v", "a b", "é", "日本", "web-10",
-		"\x01", "a\x02b", "\x00z", "A", "0", "10", "", "dbx", "xdb"}
+		"\x01", "a\x02b", "\x00z", "A", "0", "10", "", "dbx", "xdb", "a.c", "axc"}
 	pats = []string{"web", "db", "w", "[wd]", "web|db", "web-[0-9]", "^web", "b$", "^web$", "^(web|db)$", ".*", ".+", "^$", "a*",
-		"web-1|web-2", "a.c", "^a", "[0-9]+", "é", "x,y", "web.*", ".*b", "a|", "(web)", "^w.*b$", "e", "A", "(?i)a", "b|d", "we"}
+		"web-1|web-2", "a.c", "^a", "[0-9]+", "é", "x,y", "web.*", ".*b", "a|", "(web)", "^w.*b$", "e", "A", "(?i)a", "b|d", "we", "a\\.c", "^web-", "web-[0-9]+"}
 )
 
 // further patterns of the pattern x value matrix: one for every branch of the translation (prefix extraction, or-values and
@@ -629,13 +629,16 @@ func (rn *runner) finishAtoms() {
 	vl = append([]string{""}, vl...)
 	for _, p := range pl {
 		x := &Expr{T: "atom", K: "k", O: "re", V: p}
+		// the show-series path evaluates the filter afresh; the select path keeps a tag-filter result cache, emptied here so that
+		// every pattern is measured on its own
 		g1 := rn.e.queryIDs(probeMst, x)
+		must(rn.e.b.ClearCache())
 		g2 := rn.e.queryOpts(probeMst, x)
 		if !eqU(g1, g2) {
 			rn.fail("atom-paths-differ", len(rn.c.Ops), fmt.Sprintf("k =~ /%s/ on the probe series: show-series path %v, select path %v", p, g1, g2))
 		}
 		in := map[uint64]bool{}
-		for _, id := range g2 {
+		for _, id := range g1 {
 			in[id] = true
 		}
 		t := AtomTab{Pat: p, AST: parseAST(p), Literal: isPureLiteral(p), Anchors: hasAnchors(p)}
